@@ -297,8 +297,14 @@ def _job_worker(idx):
                 continue
             seen.add(d.id)
             divprem.append(mk_cmp('ne', d, Fraction(0)))
-        if pr.outcome == 'safety':
-            ev = dict(pr.event)
+        expected = job.get('expect', 'return')
+        bad_outcome = (expected != 'any' and pr.outcome not in ('safety',) and pr.outcome != expected
+                       and not (expected == 'return' and pr.outcome == 'assume_false'))
+        if pr.outcome == 'safety' or bad_outcome:
+            if pr.outcome == 'safety':
+                ev = dict(pr.event)
+            else:
+                ev = dict(kind='outcome', msg=f'path ended with "{pr.outcome} {pr.detail}" but "{expected}" was expected', stack=[])
             ev['path'] = pid
             # the event is real only if the path condition is satisfiable: witness query with model
             ass = list(m.assumptions) + [p for p in divprem if p is not None]
@@ -309,10 +315,6 @@ def _job_worker(idx):
             ev['query'] = f
             ev['logic'] = logic
             summary['events'].append(ev)
-        expected = job.get('expect', 'return')
-        if expected != 'any' and pr.outcome not in ('safety',) and pr.outcome != expected and not (expected == 'return' and pr.outcome == 'assume_false'):
-            summary['events'].append(dict(kind='outcome', msg=f'path ended with "{pr.outcome} {pr.detail}" but "{expected}" was expected',
-                                          path=pid, stack=[], query=None))
         # ---- integer side obligations (overflow / wrap) for symbolic integer arithmetic
         obs = list(m.obligations)
         if job.get('int_ranges', True):
@@ -330,6 +332,15 @@ def _job_worker(idx):
                     c = mk_and(mk_cmp('le', -(1 << (bits - 1)), t), mk_cmp('le', t, (1 << (bits - 1)) - 1))
                 obs.append(dict(kind='true', a=c, b=True, tag=f'int-{kind}@{where[-60:]}', k=len(seen_r), nass=len(m.assumptions),
                                 ndiv=len(m.divisors), extra=None))
+        # ---- pivot / divisor safety: "documented precondition => the divisor is non-zero", one obligation per division,
+        #      each under the assumptions and the non-vanishing of the EARLIER divisors only
+        if job.get('div_safety'):
+            seen_d = set()
+            for di, dterm in enumerate(m.divisors):
+                if dterm.id in seen_d:
+                    continue
+                seen_d.add(dterm.id)
+                obs.append(dict(kind='true', a=mk_cmp('ne', dterm, Fraction(0)), b=True, tag='divisor-nonzero', k=di, nass=len(m.assumptions), ndiv=di, extra=None))
         # ---- vacuity twin: assumptions and premises of the whole path must be satisfiable
         wkind, wenv, wconds = (None, None, None)
         if obs and job.get('witness', True):
